@@ -8,10 +8,14 @@
  *
  * The includer provides the sinks and the environment:
  *   static void ref_b(u8 c);                                            one output byte
- *   static void ref_num(u8 kind, u8 flags, u8 width, u8 prec, u64 v);   one numeric conversion (not rendered here)
+ *   static void ref_num(u8 kind, u8 flags, u8 width, u8 prec, u64 v);   one integer conversion (not rendered here)
+ *   static void ref_flt(u8 flags, u8 width, u8 prec, float v);          one %f conversion of a single-precision value
  *   static const struct tm *ref_localtime(u32 stamp);                   local broken-down time of a stamp
- * Token conventions are those of out_model.h: kind 'd' signed decimal, 'u' unsigned decimal, 'x' hex, 'f' float
- * (value = bits of the single-precision number); flags 1 = left-justified, 2 = zero-padded; width 0 = none;
+ * With REF_MARKERS defined (composition harnesses) every column field is replaced by one marker,
+ *   static void ref_mark(u8 field, const void *member, u64 value);      field REF_F_*, the member shown or a footer value
+ * so that the row / footer ASSEMBLY (order of fields, separating blanks, line ends, blank fill, totals) is compared
+ * while the fields themselves are compared column by column elsewhere.
+ * Token conventions are those of out_model.h: kind 'd' signed decimal, 'u' unsigned decimal, 'x' hex; flags 1 = left-justified, 2 = zero-padded; width 0 = none;
  * prec 0xff = none.
  *
  * LAYOUT
@@ -41,6 +45,15 @@
 #include "lha_file_header.h"
 
 enum { REF_L = 0, REF_LV = 1, REF_V = 2, REF_VV = 3 };
+enum { REF_F_PERM = 1, REF_F_OWNER, REF_F_PACKED, REF_F_SIZE, REF_F_RATIO, REF_F_METHOD, REF_F_STAMP, REF_F_FULLSTAMP, REF_F_NAME, REF_F_NAME2, REF_F_LEVEL,
+       REF_F_TOTAL_LABEL = 20, REF_F_TOTAL_COUNT, REF_F_TOTAL_PACKED, REF_F_TOTAL_SIZE, REF_F_TOTAL_RATIO, REF_F_TOTAL_STAMP, REF_F_TOTAL_FULLSTAMP };
+#ifdef REF_MARKERS
+#define REF_ROW_FIELD(id, h, call)   ref_mark(id, (const void *) (h), 0)
+#define REF_FOOT_FIELD(id, v, call)  ref_mark(id, (const void *) 0, (u64) (v))
+#else
+#define REF_ROW_FIELD(id, h, call)   (call)
+#define REF_FOOT_FIELD(id, v, call)  (call)
+#endif
 #define REF_LEFT 1
 #define REF_ZERO 2
 #define REF_NOPREC 0xff
@@ -119,10 +132,10 @@ static void ref_owner(const LHAFileHeader *h)
 static void ref_size(u64 v) { ref_num('u', 0, 7, REF_NOPREC, v); }
 static void ref_percent(u64 packed, u64 original)
 {
-	union { float f; u32 b; } cv;
-	if (original == 0) cv.f = 100.0f;
-	else cv.f = ((float) packed * 100.0f) / (float) original;
-	ref_num('f', 0, 5, 1, cv.b);
+	float r;
+	if (original == 0) r = 100.0f;
+	else r = ((float) packed * 100.0f) / (float) original;
+	ref_flt(0, 5, 1, r);
 	ref_b('%');
 }
 static void ref_ratio_row(const LHAFileHeader *h)
@@ -199,16 +212,18 @@ static void ref_level(const LHAFileHeader *h)
 static void ref_row(int cmd, const LHAFileHeader *h, long long now)
 {
 	int wide = (cmd == REF_V || cmd == REF_VV), own_line = (cmd == REF_LV || cmd == REF_VV);
-	if (own_line) ref_name(h, 1);
-	ref_perm(h); ref_b(' ');
-	ref_owner(h); ref_b(' ');
-	if (wide) { ref_size((u64) h->compressed_length); ref_b(' '); }
-	ref_size((u64) h->length); ref_b(' ');
-	ref_ratio_row(h); ref_b(' ');
-	if (wide) { ref_method_crc(h); ref_b(' '); }
-	if (cmd == REF_VV) ref_full_stamp(h->timestamp); else ref_stamp(h->timestamp, now);
+	if (own_line) REF_ROW_FIELD(REF_F_NAME2, h, ref_name(h, 1));
+	REF_ROW_FIELD(REF_F_PERM, h, ref_perm(h)); ref_b(' ');
+	REF_ROW_FIELD(REF_F_OWNER, h, ref_owner(h)); ref_b(' ');
+	if (wide) { REF_ROW_FIELD(REF_F_PACKED, h, ref_size((u64) h->compressed_length)); ref_b(' '); }
+	REF_ROW_FIELD(REF_F_SIZE, h, ref_size((u64) h->length)); ref_b(' ');
+	REF_ROW_FIELD(REF_F_RATIO, h, ref_ratio_row(h)); ref_b(' ');
+	if (wide) { REF_ROW_FIELD(REF_F_METHOD, h, ref_method_crc(h)); ref_b(' '); }
+	if (cmd == REF_VV) REF_ROW_FIELD(REF_F_FULLSTAMP, h, ref_full_stamp(h->timestamp));
+	else REF_ROW_FIELD(REF_F_STAMP, h, ref_stamp(h->timestamp, now));
 	ref_b(' ');
-	if (own_line) ref_level(h); else ref_name(h, 0);
+	if (own_line) REF_ROW_FIELD(REF_F_LEVEL, h, ref_level(h));
+	else REF_ROW_FIELD(REF_F_NAME, h, ref_name(h, 0));
 	ref_b('\n');
 }
 
@@ -230,18 +245,29 @@ static void ref_separator(int cmd)
 	default:     ref_text("---------- ----------- ------- ------- ------ ---------- ------------------- ---\n"); break;
 	}
 }
+static void ref_total_label(void) { ref_text(" Total    "); }
+static void ref_total_count(u32 count)
+{
+	ref_num('d', 0, 5, REF_NOPREC, (u64) (long) (int) count);
+	ref_text(count == 1 ? " file " : " files");
+}
+static void ref_total_ratio(u32 packed_total, u32 size_total)
+{
+	if (size_total == 0) ref_text("******"); else ref_percent(packed_total, size_total);
+}
 static void ref_footer(int cmd, u32 count, u32 packed_total, u32 size_total, u32 archive_stamp, long long now)
 {
 	int wide = (cmd == REF_V || cmd == REF_VV);
-	ref_text(" Total    "); ref_b(' ');
-	ref_num('d', 0, 5, REF_NOPREC, (u64) (long) (int) count);
-	ref_text(count == 1 ? " file " : " files"); ref_b(' ');
-	if (wide) { ref_size(packed_total); ref_b(' '); }
-	ref_size(size_total); ref_b(' ');
-	if (size_total == 0) ref_text("******"); else ref_percent(packed_total, size_total);
+	(void) now;
+	REF_FOOT_FIELD(REF_F_TOTAL_LABEL, 0, ref_total_label()); ref_b(' ');
+	REF_FOOT_FIELD(REF_F_TOTAL_COUNT, count, ref_total_count(count)); ref_b(' ');
+	if (wide) { REF_FOOT_FIELD(REF_F_TOTAL_PACKED, packed_total, ref_size(packed_total)); ref_b(' '); }
+	REF_FOOT_FIELD(REF_F_TOTAL_SIZE, size_total, ref_size(size_total)); ref_b(' ');
+	REF_FOOT_FIELD(REF_F_TOTAL_RATIO, ((u64) packed_total << 32 | size_total), ref_total_ratio(packed_total, size_total));
 	ref_b(' ');
 	if (wide) { ref_blanks(10); ref_b(' '); }
-	if (cmd == REF_VV) ref_full_stamp(archive_stamp); else ref_stamp(archive_stamp, now);
+	if (cmd == REF_VV) REF_FOOT_FIELD(REF_F_TOTAL_FULLSTAMP, archive_stamp, ref_full_stamp(archive_stamp));
+	else REF_FOOT_FIELD(REF_F_TOTAL_STAMP, archive_stamp, ref_stamp(archive_stamp, now));
 	ref_b('\n');
 }
 
